@@ -58,6 +58,8 @@ FLOOR = {'quick': 150, 'thorough': 4000}
 
 CREDS = {'username': 'admin', 'password': 'secret'}
 CREDS2 = {'username': 'bob', 'password': '1'}
+# the credentials of another instrumented server of the same process
+DECOY = {'username': 'ops', 'password': 'elsewhere'}
 
 
 def payload_variants():
@@ -93,6 +95,10 @@ def strategy(tier):
         'read_only': st.booleans(),
         # what the candidate presents while a slow predicate is deciding
         'slow_payload': st.sampled_from(['wrong', 'absent', 'empty']),
+        # another server of the same process was instrumented earlier, with
+        # credentials of its own (a dict, or inside a list): they are
+        # presented to the judged server
+        'prior': st.sampled_from([None, None, 'dict', 'list']),
         'payloads': st.lists(payload_variants(), min_size=1, max_size=4)})
     cmd = st.one_of(
         st.fixed_dictionaries({'ev': st.just('emit'),
@@ -320,6 +326,20 @@ def _heartbeat(case):
 
 
 def _gate(case):
+    w0 = None
+    if case.get('prior'):
+        w0, _log0 = _app_server(case['aio'])
+        w0.sio.instrument(auth=dict(DECOY) if case['prior'] == 'dict'
+                          else [dict(CREDS2), dict(DECOY)],
+                          mode=case['mode'], read_only=case['read_only'])
+    try:
+        return _gate_judged(case)
+    finally:
+        if w0 is not None:
+            w0.close()
+
+
+def _gate_judged(case):
     aio = case['aio']
     w, log = _app_server(aio)
     try:
@@ -390,7 +410,12 @@ def _gate(case):
                                                            'wrong')
             labels['nontrivial'] = True
             gate_box[0] = None
-        for payload in case['payloads']:
+        payloads = list(case['payloads'])
+        if case.get('prior'):
+            payloads.insert(len(payloads) // 2, dict(DECOY))
+            labels['other_instrumented_server_in_process'] = True
+            labels['nontrivial'] = True
+        for payload in payloads:
             t = w.open()
             data = None if payload == '<absent>' else payload
             w.send(t, wire.CONNECT, '/admin', data=data)
